@@ -209,9 +209,18 @@ func genLeaf(rng *rand.Rand) *node {
 	case 0, 1, 2:
 		return &node{Kind: "af", Reason: reasons[rng.IntN(len(reasons))]}
 	case 3, 4, 5:
+		if rng.IntN(6) == 0 { // any type string at all: only the two named ones reject
+			const a = "ValueErrorPermissionxyz _-.É"
+			n := rng.IntN(14)
+			b := make([]byte, n)
+			for i := range b {
+				b[i] = a[rng.IntN(len(a))]
+			}
+			return &node{Kind: "rpc", RpcType: string(b)}
+		}
 		return &node{Kind: "rpc", RpcType: rpcTypes[rng.IntN(len(rpcTypes))]}
 	case 6, 7:
-		return &node{Kind: "unavail", RetryAfter: []int{0, 1, 7, 120, 86400}[rng.IntN(5)]}
+		return &node{Kind: "unavail", RetryAfter: []int{0, 1, 7, 120, 86400, -1, -300}[rng.IntN(7)]}
 	case 8:
 		return &node{Kind: "plain"}
 	}
@@ -616,6 +625,34 @@ func main() {
 
 	suts := []*sut{build(false), build(true)}
 	rts := routes()
+	runUnjudged(r, suts[0], rts)
 	runSingle(r, suts, rts, r.N(40000, 2500000))
 	runChain(r, suts, rts, r.N(40000, 2500000))
+}
+
+// runUnjudged records, WITHOUT judging, what the server does with error values
+// whose membership in "all error values" is debatable: typed-nil pointers of
+// the three library error types, and an AuthFailure whose reason string is
+// outside the closed set (the library has no validator for AuthReason).
+func runUnjudged(r *mon.Run, u *sut, rts []route) {
+	probe := func(name string, err error) {
+		u.current = func(*http.Request) (*vgirpc.AuthContext, error) { return nil, err }
+		wf.Log.Reset()
+		out := "panic"
+		func() {
+			defer func() {
+				if p := recover(); p != nil {
+					out = fmt.Sprintf("panic out of ServeHTTP: %v", p)
+				}
+			}()
+			ex := wf.Do(u.h, "POST", rts[0].target, rts[0].hdr, rts[0].body)
+			out = fmt.Sprintf("status %d reason %q retry-after %q", ex.Status, ex.RHeader.Get("VGI-Auth-Reason"), ex.RHeader.Get("Retry-After"))
+		}()
+		r.Set("observed_not_judged."+name, out)
+	}
+	probe("typed_nil_AuthFailure", (*vgirpc.AuthFailure)(nil))
+	probe("typed_nil_RpcError", (*vgirpc.RpcError)(nil))
+	probe("typed_nil_AuthUnavailableError", (*vgirpc.AuthUnavailableError)(nil))
+	probe("authfailure_reason_outside_closed_set", vgirpc.NewAuthFailure("tenant_suspended", "x"))
+	probe("authfailure_reason_with_crlf", vgirpc.NewAuthFailure("a\r\nSet-Cookie: x=1", "x"))
 }
